@@ -557,8 +557,8 @@ def reader_base64_dispatch(u: U):
 
 @unit("C19", "names.semicolons_round_trip", functions=[f"{MP}:parse_content_disposition"], kind="bounded")
 def names_semicolons_round_trip(u: U):
-    """BOUND: every field name over the alphabet {a, ';', ' '} of length 1..5 (363 names), quote_fields on and off, as
-    `name` and as `filename` of a form-data part.  The header the writer side produces (helpers.content_disposition_header,
+    """BOUND: every field name over the alphabet {a, ';', ' ', '/', '\\'} of length 1..4 (780 names), quote_fields on and
+    off, as `name` and as `filename` of a form-data part.  The header the writer side produces (helpers.content_disposition_header,
     run natively) is read back by the real parse_content_disposition: the name comes back verbatim, the filename verbatim
     or percent-encoded.  (A ';' inside a quoted value is where the parser splits the header first: it has to put ANY
     number of such pieces back together, not one.)  Names containing '"' followed by ';' are outside the bound: the
@@ -575,8 +575,8 @@ def names_semicolons_round_trip(u: U):
     u.default_loop_spec = LoopSpec(unroll=True, bound=64)
     bad = []
     n = 0
-    for k in range(1, 6):
-        for tup in itertools.product("a; ", repeat=k):
+    for k in range(1, 5):
+        for tup in itertools.product("a; /\\", repeat=k):
             name = "".join(tup)
             for qf in (True, False):
                 header = content_disposition_header("form-data", quote_fields=qf, params={"name": name, "filename": name})
@@ -589,7 +589,11 @@ def names_semicolons_round_trip(u: U):
                     continue
                 disptype, params = out.value
                 got_name, got_fn = params.get("name"), params.get("filename")
-                if disptype != "form-data" or got_name != name or got_fn is None or (got_fn != name and unquote(got_fn) != name):
+                # the name verbatim; the file name verbatim or percent-encoded - or, sent unencoded (quote_fields off),
+                # without leading path separators (a deliberate safety measure of the reader, for file names only)
+                fn_ok = got_fn is not None and (got_fn == name or unquote(got_fn) == name
+                                                or (not qf and got_fn == name.lstrip("\\/")))
+                if disptype != "form-data" or got_name != name or not fn_ok:
                     bad.append((name, qf, header, params))
     u.check("C19.names.semicolons_round_trip", not bad,
             f"{n} headers written and read back; first that do not come back: {bad[:3]}",
